@@ -120,3 +120,112 @@ func TestGatewayCancellation(t *testing.T) {
 		}
 	})
 }
+
+// failClient: the at-th federated sub-query of a request fails at once; every other sub-query
+// lingers for a moment, so that some are in flight when the failure happens. Once a sibling
+// has failed, a sub-query in flight must see its context cancelled promptly.
+type failClient struct {
+	inner             federation.ExecutorClient
+	counter           *int32
+	at                int32
+	failed            chan struct{}
+	failOnce          *int32
+	notCancelled      *int32
+	inFlightAtFailure *int32
+	inFlight          *int32
+}
+
+func (c *failClient) Execute(ctx context.Context, req *federation.QueryRequest) (*federation.QueryResponse, error) {
+	n := atomic.AddInt32(c.counter, 1)
+	if n == c.at {
+		if atomic.CompareAndSwapInt32(c.failOnce, 0, 1) {
+			atomic.StoreInt32(c.inFlightAtFailure, atomic.LoadInt32(c.inFlight))
+			close(c.failed)
+		}
+		return nil, fmt.Errorf("injected sub-query failure")
+	}
+	atomic.AddInt32(c.inFlight, 1)
+	defer atomic.AddInt32(c.inFlight, -1)
+	select {
+	case <-ctx.Done():
+		return nil, ctx.Err()
+	case <-c.failed:
+		select {
+		case <-ctx.Done():
+			return nil, ctx.Err()
+		case <-time.After(2 * time.Second):
+			atomic.StoreInt32(c.notCancelled, 1)
+			return nil, fmt.Errorf("harness: gave up waiting for cancellation")
+		}
+	case <-time.After(40 * time.Millisecond):
+	}
+	return c.inner.Execute(ctx, req)
+}
+
+// TestGatewaySiblingFailure: one federated sub-query fails while others are in flight.
+func TestGatewaySiblingFailure(t *testing.T) {
+	rapid.Check(t, func(t *rapid.T) {
+		s := world.GenFedSpec(t)
+		part := world.GenPartition(t, s)
+		svcs, err := world.BindFed(s, part, world.Modes{})
+		if err != nil {
+			t.Fatalf("harness: %v", err)
+		}
+		var counter, failOnce, notCancelled, inFlight, inFlightAtFailure int32
+		failed := make(chan struct{})
+		at := int32(rapid.IntRange(1, 4).Draw(t, "at"))
+		setup, stopSetup := context.WithCancel(context.Background())
+		defer stopSetup()
+		execs := map[string]federation.ExecutorClient{}
+		var clients []*failClient
+		for _, sv := range svcs {
+			srv, _ := federation.NewServer(sv.Schema)
+			fc := &failClient{inner: &federation.DirectExecutorClient{Client: srv}, counter: &counter, at: -1, failed: failed, failOnce: &failOnce, notCancelled: &notCancelled, inFlight: &inFlight, inFlightAtFailure: &inFlightAtFailure}
+			clients = append(clients, fc)
+			execs[sv.Name] = fc
+		}
+		gw, err := federation.NewExecutor(setup, execs, &federation.SchemaSyncerConfig{SchemaSyncer: federation.NewIntrospectionSchemaSyncer(setup, execs, nil)})
+		if err != nil {
+			t.Fatalf("harness: gateway: %v", err)
+		}
+		q, _ := world.GenQuery(t, s, world.GenOpts{MaxDepth: 3, UnionTypenameAlways: true})
+		vb, _ := json.Marshal(q.Values)
+		var vals map[string]interface{}
+		json.Unmarshal(vb, &vals)
+		if vals == nil {
+			vals = map[string]interface{}{}
+		}
+		pq, err := graphql.Parse(q.Text(), vals)
+		if err != nil {
+			t.Fatalf("harness: %v", err)
+		}
+		time.Sleep(50 * time.Millisecond) // let the introspection sub-queries of the syncer pass
+		atomic.StoreInt32(&counter, 0)
+		for _, fc := range clients {
+			fc.at = at
+		}
+		start := time.Now()
+		done := make(chan error, 1)
+		go func() {
+			_, _, err := gw.Execute(context.Background(), pq, nil)
+			done <- err
+		}()
+		cs := map[string]interface{}{"query": q.Text(), "fail_at_subquery": at, "partition": part.Fields}
+		select {
+		case <-done:
+		case <-time.After(10 * time.Second):
+			p := rec.Violate("TestGatewaySiblingFailure", cs, "federation.Executor.Execute does not return within 10s after a sub-query failed")
+			t.Fatalf("gateway Execute does not return after a sub-query failed (replay %s)", p)
+		}
+		took := time.Since(start)
+		if atomic.LoadInt32(&notCancelled) == 1 {
+			p := rec.Violate("TestGatewaySiblingFailure", cs, fmt.Sprintf("a sub-query in flight was not cancelled within 2s after another sub-query of the request had failed (Execute took %v)", took))
+			t.Fatalf("a sub-query in flight was not cancelled after its sibling failed; Execute took %v (replay %s)", took, p)
+		}
+		reached := atomic.LoadInt32(&failOnce) == 1 && atomic.LoadInt32(&inFlightAtFailure) > 0
+		rec.Case(fmt.Sprint(cs), reached, "sibling-failure", fmt.Sprintf("others-in-flight=%v", reached))
+		if reached {
+			rec.Sample("sibling-failure", cs)
+		}
+	})
+}
